@@ -327,9 +327,21 @@ def respell_ops(ops, rng):
             return "__".join(other_spelling(c) if (flip() and "__" not in other_spelling(c)) else c for c in k.split("__"))
         return respell_key(k, flip)
 
+    def remap(d, fk):
+        """respell the keys of one mapping; a key whose new spelling would collide with another key of the
+        SAME mapping (both spellings present: two entries, applied in order, of which a later one may never be
+        reached when an earlier entry raises) keeps its spelling - collapsing them would change the history"""
+        out = {}
+        for k, x in d.items():
+            nk = fk(k)
+            if nk != k and (nk in d or nk in out):
+                nk = k
+            out[nk] = rval(x)
+        return out
+
     def rval(v):
         if isinstance(v, dict):
-            return {(other_spelling(k) if flip() else k): rval(x) for k, x in v.items()}
+            return remap(v, lambda k: other_spelling(k) if flip() else k)
         return v
 
     def rop(o):
@@ -338,8 +350,14 @@ def respell_ops(ops, rng):
         if o[0] in ("set", "with", "withx"):
             arg = o[1]
             if isinstance(arg, dict) and set(arg) != {"__bad__"}:
-                arg = {rkey(k): rval(v) for k, v in arg.items()}
-            kw = [[rkey(k, True), rval(v)] for k, v in o[2]]
+                arg = remap(arg, rkey)
+            kw, seen = [], set(k for k, _ in o[2])
+            for k, v in o[2]:
+                nk = rkey(k, True)
+                if nk != k and nk in seen:
+                    nk = k
+                seen.add(nk)
+                kw.append([nk, rval(v)])
             if o[0] != "set":
                 return [o[0], arg, kw, [rop(b) for b in o[3]]]
             return ["set", arg, kw]
